@@ -15,6 +15,7 @@ pub struct Summary {
     pub ref_mismatches: Vec<V>,
     pub per_op: BTreeMap<String, u64>,
     pub notes: BTreeMap<String, u64>,
+    pub mismatch_by_variant: BTreeMap<String, u64>,
     pub cur_line: u64,
     pub cur: V,
 }
@@ -34,7 +35,10 @@ impl Summary {
         self.op(variant);
         if &got != exp {
             self.n_mismatch += 1;
-            if self.mismatches.len() < KEEP {
+            let c = self.mismatch_by_variant.entry(variant.to_string()).or_insert(0);
+            *c += 1;
+            // keep the first few of every variant so that each defect is represented
+            if *c <= 5 && self.mismatches.len() < KEEP {
                 self.mismatches.push(json!({"line": self.cur_line, "variant": variant,
                     "got": got, "exp": exp, "rec": self.cur}));
             }
@@ -55,7 +59,9 @@ impl Summary {
         self.checks += 1;
         if !ok {
             self.n_mismatch += 1;
-            if self.mismatches.len() < KEEP {
+            let c = self.mismatch_by_variant.entry(variant.to_string()).or_insert(0);
+            *c += 1;
+            if *c <= 5 && self.mismatches.len() < KEEP {
                 self.mismatches.push(json!({"line": self.cur_line, "variant": variant,
                     "monitor": what, "rec": self.cur}));
             }
@@ -67,6 +73,7 @@ impl Summary {
             "n_mismatch": self.n_mismatch, "n_ref_mismatch": self.n_ref_mismatch,
             "mismatches": self.mismatches, "ref_mismatches": self.ref_mismatches,
             "per_op": self.per_op, "notes": self.notes,
+            "mismatch_by_variant": self.mismatch_by_variant,
         })
     }
 }
